@@ -57,7 +57,7 @@ func runSQLLim0(c *core.Ctx) {
 			xp := an.PathOf(x)
 			if len(fn.Params) == 3 {
 				lim, mx := "p:"+fn.Params[1].Name(), "p:"+fn.Params[2].Name()
-				okMin := strings.Contains(xp, "min("+lim+","+mx+")") || strings.Contains(xp, "min("+mx+","+lim+")")
+				okMin := strings.Contains(xp, "min("+lim+","+mx+")") || strings.Contains(xp, "min("+mx+","+lim+")") || handMin(fn, x, lim, mx)
 				c.Check(okMin && strings.Contains(xp, mx), nil, fname(c, fn), construct+"/value", P.Pos(call.Pos()), "limit ← "+xp, "the limit clause is "+xp+", want min(the filter's limit, the configured maximum) (and the maximum alone when the filter has none)")
 			}
 			c.Check(!set.Contains(0), nil, fname(c, fn), construct, P.Pos(call.Pos()),
@@ -68,6 +68,56 @@ func runSQLLim0(c *core.Ctx) {
 	if n == 0 {
 		c.Unknown(nil, "-", "call:(*SelectDataset).Limit", "-", "no call of goqu Limit in the sqlite package: the limit clause could not be located")
 	}
+}
+
+// handMin: x is a hand-written minimum `l := mx; if lim != nil && uint(*lim) < l { l = uint(*lim) }` —
+// a phi of the maximum and the filter's limit, where the limit's edge is taken only when the
+// limit is (strictly or not) below the maximum.
+func handMin(fn *ssa.Function, x ssa.Value, lim, mx string) bool {
+	ph, ok := an.Unwrap(x).(*ssa.Phi)
+	if !ok || len(ph.Edges) < 2 {
+		return false
+	}
+	nMx, nLim := 0, 0
+	for i, e := range ph.Edges {
+		p := an.PathOf(e)
+		switch {
+		case p == mx:
+			nMx++
+		case strings.Contains(p, lim):
+			nLim++
+			// this edge is taken only when the limit is below (or at) the maximum
+			pred := ph.Block().Preds[i]
+			gs := an.Guards(fn, pred)
+			if iff, isIf := an.LastInstr(pred).(*ssa.If); isIf && len(pred.Succs) == 2 && pred.Succs[0] != pred.Succs[1] {
+				gs = append(gs, an.NormCond(an.Cond{V: iff.Cond, True: pred.Succs[0] == ph.Block(), At: pred}))
+			}
+			below := false
+			for _, g := range gs {
+				b, isB := g.V.(*ssa.BinOp)
+				if !isB {
+					continue
+				}
+				xs, ys := an.PathOf(b.X), an.PathOf(b.Y)
+				op := b.Op
+				if !g.True {
+					op = map[token.Token]token.Token{token.LSS: token.GEQ, token.LEQ: token.GTR, token.GTR: token.LEQ, token.GEQ: token.LSS}[op]
+				}
+				if xs == p && ys == mx && (op == token.LSS || op == token.LEQ) {
+					below = true
+				}
+				if xs == mx && ys == p && (op == token.GTR || op == token.GEQ) {
+					below = true
+				}
+			}
+			if !below {
+				return false
+			}
+		default:
+			return false
+		}
+	}
+	return nMx > 0 && nLim > 0
 }
 
 // aliasClass classifies the provenance of a computed alias.
